@@ -103,7 +103,7 @@ def index_state_rules(index, rep, remap):
     ngrow = 0
     for fi in index.methods_of(TNS):
         for w in writes_in(fi.node):
-            if w.attr != "_taxa" or not (isinstance(w.base, ast.Name) and w.base.id in ("self", "o")):
+            if w.attr != "_taxa" or not isinstance(w.base, ast.Name):
                 continue
             grows = (w.kind == "mutcall" and w.method in ("append", "insert", "extend")) or w.kind in ("augstore", "substore") \
                 or (w.kind == "store" and fi.name not in ("__init__", "__deepcopy__"))
